@@ -3,7 +3,7 @@ import itertools
 import numpy as np
 import impl
 from gen import grid, data, unc, material
-from .common import arr, tolist, relerr, keyword_call_differs, history_differs, confusable
+from .common import arr, tolist, relerr, keyword_call_differs, history_differs, confusable, inplace_history_differs
 
 RK = ["S", "F", "FK", "DCS"]
 GK = ["g", "G", "GK"]
@@ -127,6 +127,11 @@ def evaluate_values(case):
             if x2 is not None and len(x) <= 200 and np.all(np.diff(x) > 0):
                 if history_differs("Converter", f"{X}_to_{Y}", (xs, ys, None), kw, [(f"{X}_to_{Y}", (x2, ys, None), kw)]):
                     fails.append(f"{X}_to_{Y}: the result depends on calls the same Converter served before (a grid with the same length and end points)")
+            if len(x) <= 200 and not case.get("int_inputs"):
+                # the same array object served an earlier call with other contents (bin edges shifted to bin centres in place)
+                if inplace_history_differs("Converter", f"{X}_to_{Y}", (xs, ys, None), kw, 0, np.asarray(xs, dtype=float) * 0.5 + 0.25):
+                    fails.append(f"{X}_to_{Y}: the result depends on what the abscissa array held during an earlier call on the same "
+                                 "Converter (the array was updated in place in between)")
             out = np.asarray(out, dtype=float)
             exp = mk(Y, x, under, kw)
             # finite wherever the exact value is representable (F/Q may honestly overflow for subnormal Q), and always at x <= 0
@@ -204,8 +209,9 @@ def evaluate_unc(case):
             if not np.isfinite(u0[np.isfinite(exp_all) | (x <= 0)]).all():
                 fails.append(f"{X}_to_{Y}: non-finite uncertainty")
                 continue
-            if pos.any() and relerr(u0[pos], exp[pos]) > TOL:
-                fails.append(f"{X}_to_{Y}: uncertainty differs from |dY/dX|*dX by {relerr(u0[pos], exp[pos]):.3g}")
+            usc = max(float(np.abs(exp[pos]).max()), 1e-300) if pos.any() else 1.0   # first-order propagation is homogeneous in dX
+            if pos.any() and relerr(u0[pos], exp[pos], scale=usc) > TOL:
+                fails.append(f"{X}_to_{Y}: uncertainty differs from |dY/dX|*dX by {relerr(u0[pos], exp[pos], scale=usc):.3g} of its scale")
             if (u0 < 0).any():
                 fails.append(f"{X}_to_{Y}: negative uncertainty for non-negative input")
             y2 = y * 1.7 + 0.3 + np.arange(len(y))
@@ -219,6 +225,6 @@ def evaluate_unc(case):
             if np.asarray(ui).shape != np.asarray(uf).shape or not np.allclose(np.asarray(ui, dtype=float), np.asarray(uf), rtol=1e-12, atol=0):
                 fails.append(f"{X}_to_{Y}: integer-typed uncertainties give different (truncated) results than the same values as floats")
             _, ub = conv(Y, X, x, v0, u0, kw)
-            if pos.any() and relerr(np.asarray(ub)[pos], dy[pos]) > 1e-8:
+            if pos.any() and relerr(np.asarray(ub)[pos], dy[pos], scale=max(float(np.abs(dy[pos]).max()), 1e-300)) > 1e-8:
                 fails.append(f"{X}_to_{Y} then back: uncertainty not restored")
     return fails
